@@ -5,6 +5,72 @@ package tokenizer
 // Contracts for the govc verification-condition generator (see /verif/DESIGN.md, sections 1.2, 4.11, 4.13).
 // This file is comment-only: it contains no declarations and changes no compiled code.
 
+// Data-structure invariant of a tokenizer between the steps of a run: the cursor lies inside the input.
+//@ pred tz_ok(t *Tokenizer) = 0 <= t.pos.Index && t.pos.Index <= len(t.input)
+
+// Default contract of the scanning methods: the invariant is preserved, the cursor never moves backwards,
+// the input is not replaced, and a successful read that started before the end of the input consumed
+// at least one byte (progress: the measure len(input) - pos.Index of the main loops decreases).
+//@ func (*Tokenizer).*
+//@   except (*Tokenizer).Tokenize, (*Tokenizer).TokenizeContext, (*Tokenizer).Reset, (*Tokenizer).SetDialect
+//@   except (*Tokenizer).SetLogger, (*Tokenizer).Dialect
+//@   requires tz_ok(recv)
+//@   ensures  tz_ok(recv)
+//@   ensures  recv.pos.Index >= old(recv.pos.Index)
+//@   ensures  recv.input == old(recv.input)
+//@   ensures  implies(err == nil && old(recv.pos.Index) < len(recv.input), recv.pos.Index > old(recv.pos.Index))
+//@   ensures  @C13 implies(err != nil, structured(err) || isctx(err))
+//@   ensures  @C13 implies(err != nil && structured(err), fam(err) == 1)
+//@   ensures  @C11 implies(err != nil && causectx(err), isctx(err))
+
+// The readers are entered only with at least one byte left (nextToken checks it).
+//@ func (*Tokenizer).readIdentifier
+//@   inherit
+//@   requires recv.pos.Index < len(recv.input)
+//@ func (*Tokenizer).readNumber
+//@   inherit
+//@   requires recv.pos.Index < len(recv.input)
+//@ func (*Tokenizer).readQuotedIdentifier
+//@   inherit
+//@   requires recv.pos.Index < len(recv.input)
+//@ func (*Tokenizer).readBacktickIdentifier
+//@   inherit
+//@   requires recv.pos.Index < len(recv.input)
+//@ func (*Tokenizer).readQuotedString
+//@   inherit
+//@   requires recv.pos.Index < len(recv.input)
+//@ func (*Tokenizer).readTripleQuotedString
+//@   inherit
+//@   requires recv.pos.Index < len(recv.input)
+//@ func (*Tokenizer).handleEscapeSequence
+//@   inherit
+//@   requires recv.pos.Index < len(recv.input)
+
+// Entry points: the size limit is checked before anything else; the main loop (a closure) keeps the cursor
+// inside the input, never holds more than MaxTokens tokens, and terminates (variant: bytes left).
+//@ func (*Tokenizer).Tokenize$1
+//@   loop 1 invariant tz_ok(t) && len(tokens) <= MaxTokens
+//@   loop 1 decreases len(t.input) - t.pos.Index
+//@ func (*Tokenizer).TokenizeContext$1
+//@   loop 1 invariant tz_ok(t) && len(tokens) <= MaxTokens
+//@   loop 1 decreases len(t.input) - t.pos.Index
+
+//@ func (*Tokenizer).Tokenize
+//@   ensures  implies(len(input) > MaxInputSize, err != nil)
+//@   ensures  implies(err == nil, len(result) <= MaxTokens + 1)
+//@   ensures  @C13 implies(err != nil, structured(err) || isctx(err))
+//@   ensures  @C13 implies(err != nil && structured(err), fam(err) == 1)
+//@   ensures  @C11 implies(err != nil && causectx(err), isctx(err))
+//@   loop 1 invariant 0 <= i && t.input == input && t.pos.Index == 0
+
+//@ func (*Tokenizer).TokenizeContext
+//@   ensures  implies(len(input) > MaxInputSize, err != nil)
+//@   ensures  implies(err == nil, len(result) <= MaxTokens + 1)
+//@   ensures  @C13 implies(err != nil, structured(err) || isctx(err))
+//@   ensures  @C13 implies(err != nil && structured(err), fam(err) == 1)
+//@   ensures  @C11 implies(err != nil && causectx(err), isctx(err))
+//@   loop 1 invariant 0 <= i && t.input == input && t.pos.Index == 0
+
 // Every error a tokenizer function returns is a structured error with a tokenizer (E1xxx) code, or the
 // context's error (NewWithKeywords validates a constructor argument, it does not tokenize); an error that exists because the context fired matches it under errors.Is.
 //@ func *
